@@ -35,6 +35,12 @@
 #include "rapidjson/document.h"
 #include "world_builder/world.h"
 
+#if defined(__SANITIZE_ADDRESS__)
+// sanitizer builds: a report ends the worker with a recognisable exit code; leaks are not part of any property
+extern "C" const char *__asan_default_options() { return "detect_leaks=0:exitcode=88:allocator_may_return_null=1:malloc_context_size=12"; }
+extern "C" const char *__ubsan_default_options() { return "print_stacktrace=1:halt_on_error=1:exitcode=89"; }
+#endif
+
 namespace kit
 {
   inline double now()
@@ -435,6 +441,44 @@ namespace kit
 
   struct Viol { std::string suite; uint64_t idx; std::string sig, detail; };
 
+  // short, stable label of what a dying worker printed (sanitizer report kind and first library frame), for the signature
+  inline std::string crash_tag(const std::string &err)
+  {
+    std::string tag;
+    size_t p = err.find("AddressSanitizer: ");
+    if (p != std::string::npos)
+      {
+        size_t e = p + 18;
+        while (e < err.size() && (isalnum(static_cast<unsigned char>(err[e])) || err[e] == '-')) ++e;
+        tag = "/asan-" + err.substr(p + 18, e - p - 18);
+      }
+    else if ((p = err.find("runtime error: ")) != std::string::npos)
+      {
+        size_t e = err.find('\n', p);
+        std::string m = err.substr(p + 15, std::min<size_t>(e - p - 15, 70));
+        std::string clean;
+        for (char c : m) clean += (isalpha(static_cast<unsigned char>(c)) || c == ' ') ? c : '#';
+        // the file:line in front of "runtime error" tells where
+        size_t b = err.rfind('\n', p);
+        b = (b == std::string::npos) ? 0 : b + 1;
+        std::string where = err.substr(b, p - b);
+        const size_t sl = where.rfind('/');
+        if (sl != std::string::npos) where = where.substr(sl + 1);
+        while (!where.empty() && (where.back() == ' ' || where.back() == ':')) where.pop_back();
+        tag = "/ubsan-" + clean + "@" + where;
+      }
+    else return "";
+    // first frame inside the library
+    size_t f = err.find("/stage/source/");
+    if (f != std::string::npos && tag.find('@') == std::string::npos)
+      {
+        size_t e = f + 14;
+        while (e < err.size() && !isspace(static_cast<unsigned char>(err[e]))) ++e;
+        tag += "@" + err.substr(f + 14, e - f - 14);
+      }
+    return tag;
+  }
+
   inline int replay_main(const Spec &spec, const std::vector<Suite> &suites, const std::string &file)
   {
     std::ifstream f(file);
@@ -475,11 +519,8 @@ namespace kit
     int st = 0;
     waitpid(p, &st, 0);
     bool reproduced = false;
-    if (WIFSIGNALED(st))
-      {
-        const std::string csig = "crash/" + suite + "/signal" + std::to_string(WTERMSIG(st));
-        reproduced = (csig == sig) || sig.compare(0, 6, "crash/") == 0;
-      }
+    // the case killed the process again (signal, sanitizer exit code, watchdog): that is the crash being replayed
+    if (WIFSIGNALED(st) || (WIFEXITED(st) && WEXITSTATUS(st) != 0)) reproduced = sig.compare(0, 6, "crash/") == 0;
     std::stringstream gs(got);
     std::string line;
     while (std::getline(gs, line)) if (line == sig) reproduced = true;
@@ -643,7 +684,8 @@ namespace kit
               {
                 uint64_t local = cur; size_t si = 0;
                 while (local >= suites[si].n) { local -= suites[si].n; ++si; }
-                const std::string tail = read_tail(g.rundir + "/shard" + std::to_string(id) + ".err", 3000);
+                const std::string tail = read_tail(g.rundir + "/shard" + std::to_string(id) + ".err", 6000);
+                how += crash_tag(tail);
                 viols.push_back({suites[si].name, local, "crash/" + suites[si].name + "/" + how,
                                  JObj().str("how", how).str("stderr_tail", tail).done()});
                 sh->w[id].current = UINT64_MAX;
@@ -749,7 +791,7 @@ namespace kit
     for (auto &v : viols) by_sig[v.sig].push_back(&v);
     const std::vector<Known> known = load_known();
     int n_real = 0, n_known = 0, n_harness = 0;
-    (void)!system(("mkdir -p /verif/replays/" + spec.property).c_str());
+    (void)!system(("rm -rf /verif/replays/" + spec.property + " && mkdir -p /verif/replays/" + spec.property).c_str());
     std::vector<std::string> lines;
     int reported = 0;
     for (auto &e : by_sig)
